@@ -681,6 +681,11 @@ def static_tie(cm, chk, pid, repo):
         elif pid in ("C02", "C07"):
             text = C02_FILE % propagator_kernels(repo)
             info["translated"] = ["rdmpropagator.py:_COM", "rdmpropagator.py:_TTI", "rdmpropagator.py:_OTI"]
+            import translate2
+            t2, w2 = translate2.rdm_taylor(repo)
+            text += ("\nFrom Coq Require Import Lia.\nFrom QV Require Import Base.Taylor Base.TaylorG Proofs.TaylorGen.\n"
+                     "Import ListNotations.\nOpen Scope Z_scope.\n" + t2)
+            info["translated"] += [w + " (loop nest, order-loop body)" for w in w2]
         else:
             import translate2
             if pid not in translate2.STATIC:
